@@ -50,6 +50,7 @@ def kernel_set(ctx):
         expr_names = {c.name for c in repo.expr_classes()}
         K = {}
         why = {}
+        defs_cache = {}
 
         def add(res, reason):
             if res and res[0] == "func" and res[1].module.is_unit:
@@ -64,9 +65,17 @@ def kernel_set(ctx):
             """function-valued sub-expressions of an argument (through partial(...)/staticmethod(...) wrappers, tuples, lists)."""
             out = []
             stack = [node]
+            expanded = set()
             while stack:
                 n = stack.pop()
-                if isinstance(n, (ast.Name, ast.Attribute)):
+                if isinstance(n, ast.Name) and fi is not None and n.id in fi.local_names and n.id not in expanded:
+                    # a local alias (``func = _custom_quantile`` ... ``map_blocks(func, ...)``): follow its definitions
+                    expanded.add(n.id)
+                    from ..dataflow import Defs
+
+                    d = defs_cache.setdefault(fi.fq, Defs(fi.node))
+                    stack.extend(d.defs.get(n.id, []))
+                elif isinstance(n, (ast.Name, ast.Attribute)):
                     out.append(n)
                 elif isinstance(n, ast.Call) and (dotted(n.func) or "").rsplit(".", 1)[-1] in ("partial", "staticmethod", "classmethod", "curry", "compose"):
                     stack.extend(n.args)
